@@ -1194,10 +1194,15 @@ int32_t jls_core_ts_seek(struct jls_core_s * self, uint16_t signal_id, uint8_t l
             if (idx >= (int32_t) r->header.entry_count) {
                 idx = ((int32_t) r->header.entry_count) - 1;
                 break;
-            } else if (r->entries[idx].timestamp> timestamp) {
+            } else if (r->entries[idx].timestamp > timestamp) {
                 --idx;
                 break;
             } else if (r->entries[idx].timestamp == timestamp) {
+                if (lvl > 1) {
+                    // entries with an equal timestamp may end the previous
+                    // lower-level chunk: descend into that one.
+                    --idx;
+                }
                 break;
             }
         }
